@@ -2285,7 +2285,14 @@ where
                         offset_table = Some(Vec::new())
                     }
                 }
-                DataToken::ItemStart { len: _ } => { /* no-op */ }
+                DataToken::ItemStart { len } => {
+                    // an empty fragment yields no item value token,
+                    // but it is a fragment nonetheless
+                    // (the first item is the offset table)
+                    if len == Length(0) && offset_table.is_some() {
+                        fragments.push(Vec::new());
+                    }
+                }
                 DataToken::SequenceEnd => {
                     // end of pixel data
                     break;
